@@ -1003,7 +1003,7 @@ impl Tree {
         let rf = partitions_o.len() + partitions_s.len() - 2 * i;
 
         // Hacky...
-        if self.is_rooted()? && rf != 0 && !same_root {
+        if self.is_rooted()? && other.is_rooted()? && rf != 0 && !same_root {
             Ok(rf + 2)
         } else {
             Ok(rf)
